@@ -99,7 +99,9 @@ impl Map {
 
     /// Returns the number of populations in the mapping.
     pub fn number_of_populations(&self) -> usize {
-        self.population_sizes().len()
+        // Population ids are assigned on first appearance, and a population may since have lost
+        // all its samples to a later entry reassigning them; such a population still has an id
+        self.0.values().map(|id| id.0 + 1).max().unwrap_or(0)
     }
 
     /// Returns the number of samples defined for each population id.
@@ -120,8 +122,8 @@ impl Map {
         let population_sizes = self.population_sizes();
 
         Shape(
-            (0..population_sizes.len())
-                .map(|id| 1 + 2 * population_sizes.get(&population::Id(id)).unwrap())
+            (0..self.number_of_populations())
+                .map(|id| 1 + 2 * population_sizes.get(&population::Id(id)).unwrap_or(&0))
                 .collect(),
         )
     }
